@@ -202,7 +202,16 @@ func runC20(c *Ctx, r *Report) {
 	}
 	// R3: min/max after each child store
 	minIdx, maxIdx := fieldIndex(trieT, "min"), fieldIndex(trieT, "max")
-	isBoundCmp := func(in ssa.Instruction, op token.Token, field int) bool {
+	var isBoundCmp func(in ssa.Instruction, op token.Token, field int) bool
+	isBoundCmp = func(in ssa.Instruction, op token.Token, field int) bool {
+		// a helper method of the trie that does the comparison on every path (t.widenRange(char))
+		if hc, ok := in.(*ssa.Call); ok {
+			callee := hc.Common().StaticCallee()
+			if callee == nil || callee == insert || !isModuleSSA(callee) || callee.Blocks == nil || callee.Pkg == nil || shortPkg(callee.Pkg.Pkg) != "trie" {
+				return false
+			}
+			return mustPassFromEntry(callee, func(x ssa.Instruction) bool { return isBoundCmp(x, op, field) }, isReturn) == nil
+		}
 		// builtin form: t.min = min(t.min, char) / t.max = max(t.max, char)
 		if st, ok := in.(*ssa.Store); ok {
 			fa, ok := st.Addr.(*ssa.FieldAddr)
